@@ -3203,6 +3203,13 @@ func _case(n *node) {
 								return tnext
 							}
 						}
+					} else if !val.value.IsValid() {
+						// A nil value of an interpreted interface type matches "case nil".
+						for _, typ := range types {
+							if typ.cat == nilT {
+								return tnext
+							}
+						}
 					}
 					return fnext
 				}
@@ -3261,6 +3268,9 @@ func _case(n *node) {
 							destValue(f).Set(vi.value)
 							return tnext
 						}
+					} else if !vi.value.IsValid() && typ.cat == nilT {
+						// A nil value of an interpreted interface type matches "case nil".
+						return tnext
 					}
 					return fnext
 				}
@@ -3304,6 +3314,14 @@ func _case(n *node) {
 					if v := vi.node; v != nil {
 						for _, typ := range types {
 							if v.typ.id() == typ.id() {
+								destValue(f).Set(val)
+								return tnext
+							}
+						}
+					} else if !vi.value.IsValid() {
+						// A nil value of an interpreted interface type matches "case nil".
+						for _, typ := range types {
+							if typ.cat == nilT {
 								destValue(f).Set(val)
 								return tnext
 							}
